@@ -412,6 +412,9 @@ impl Connection {
     }
 }
 
+#[cfg(amiquip_verif)]
+pub(crate) use self::amqp_url::verif_decode;
+
 mod amqp_url {
     use super::*;
     use crate::{Auth, Error};
@@ -612,6 +615,15 @@ mod amqp_url {
         }
 
         Ok(options)
+    }
+
+    /// Verification hook: the URL pipeline of `open` up to (not including) the socket.
+    #[cfg(amiquip_verif)]
+    pub(crate) fn verif_decode(url: &str) -> Result<(bool, Url, ConnectionOptions<Auth>)> {
+        let mut url = Url::parse(url).context(UrlParseSnafu)?;
+        let scheme = populate_host_and_port(&mut url)?;
+        let options = decode(&url)?;
+        Ok((scheme == Scheme::Amqps, url, options))
     }
 
     #[cfg(test)]
